@@ -93,7 +93,7 @@ inductive PC where
   | oi (k v c : Nat)
   | oiEv (k v c : Nat)
   | oiAdd (k v c : Nat)
-  | clr
+  | clr (acq pend : List Nat)         -- `clear`: shard write locks held so far / attempted and pending (async `join_all`)
   | mLock (sh limit : Nat) (full : Bool)
   | mDrain (m : MCtx) (left : Nat) (acc : List (Nat × Nat))
   | mAdmit (m : MCtx) (ws : List (Nat × Nat))
@@ -127,6 +127,7 @@ structure State where
   cur : Int                         -- current_cost, unbounded; the u64 observed is `obs`
   events : Nat → List (Nat × Nat)   -- per shard write-event buffer
   mlock : Nat → Option Nat          -- per shard maintenance_lock holder
+  sheld : Nat → Option Nat          -- per shard: the `clear` that holds the map's write lock across its other acquisitions
   pc : Nat → PC
   amode : Nat → Bool                -- the thread's current call goes through the async handle (`AsyncCache`)
   notifs : List Note                -- notifications accepted by the channel
@@ -138,7 +139,7 @@ structure State where
   dirty : Bool                      -- ghost: some step changed `drift`
 
 def init : State :=
-  { map := fun _ => none, now := 0, cur := 0, events := fun _ => [], mlock := fun _ => none,
+  { map := fun _ => none, now := 0, cur := 0, events := fun _ => [], mlock := fun _ => none, sheld := fun _ => none,
     pc := fun _ => .idle, amode := fun _ => false, notifs := [], nextRid := 0, removed := [], hist := [], dom := [],
     drift := 0, dirty := false }
 
@@ -220,7 +221,7 @@ def startPC (c : Cfg) (now : Nat) : Op → PC
   | .compute k d => .cmp k d true
   | .tryCompute k d => .cmp k d false
   | .orInsert k v c => .oi k v c
-  | .clear => .clr
+  | .clear => .clr [] []
   | .maint sh limit full => .mLock sh limit full
 
 inductive Label where
@@ -231,6 +232,8 @@ inductive Label where
   | rmMap | rmPol | rmSub | rmNote (sent : Bool)
   | compute (fail : Bool)
   | oiMap | oiEv | oiAdd
+  | clrAcq (i : Nat)               -- `clear` reaches the write lock of shard i (first poll of `write_async` when async)
+  | clrGet (i : Nat)               -- async `clear`: a pending `write_async` of shard i is re-polled and succeeds
   | clear
   | mLock | recv | admit (d : Decision) | victim | evSub | evNote (sent : Bool)
   | ttlAdvance (expired : List Nat) | ttlMap (sent : Bool) | ttiMap (victims : List Nat) (sent : Bool)
@@ -374,15 +377,43 @@ def stepOiAdd (s : State) (t : Nat) : Option State :=
                                   hist := s.hist ++ [.ret t (some v)] }
   | _ => none
 
-/-- `clear`: every shard write lock held; maps emptied and the cost of exactly the entries removed
-subtracted from `current_cost` (one `fetch_sub` while the locks are still held; since /repo commit
-7e5c084 — before it, `clear` stored 0 and lost the adjustments in-flight operations still owed). The
-event buffers are NOT emptied. -/
-def stepClear (s : State) (t : Nat) : Option State :=
+/-- `clear` takes the write lock of every shard and keeps them all until it returns.
+Sync (`iter_shards().map(write).collect()`): in index order, blocking — the step is disabled while the
+shard is held. Async (`join_all(write_async)`): the first poll tries the shards in index order, but a
+shard that is held is SKIPPED (its future stays pending) and the next one is still tried. -/
+def stepClrAcq (c : Cfg) (s : State) (t : Nat) (i : Nat) : Option State :=
   match s.pc t with
-  | .clr =>
-    some { s with map := fun _ => none, cur := s.cur - residentCost s,
-                  pc := upd s.pc t (.done none), hist := s.hist ++ [.clear t, .ret t none] }
+  | .clr acq pend =>
+    if i < c.nShards && i == acq.length + pend.length then
+      match s.sheld i with
+      | none => some { s with sheld := upd s.sheld i (some t), pc := upd s.pc t (.clr (acq ++ [i]) pend) }
+      | some _ => if s.amode t then some { s with pc := upd s.pc t (.clr acq (pend ++ [i])) } else none
+    else none
+  | _ => none
+
+/-- async `clear` re-polled after a wake-up: a pending shard that is free now is acquired -/
+def stepClrGet (s : State) (t : Nat) (i : Nat) : Option State :=
+  match s.pc t with
+  | .clr acq pend =>
+    if s.amode t && pend.contains i then
+      match s.sheld i with
+      | none => some { s with sheld := upd s.sheld i (some t), pc := upd s.pc t (.clr (acq ++ [i]) (pend.erase i)) }
+      | some _ => none
+    else none
+  | _ => none
+
+/-- `clear` with every shard write lock held: maps emptied and the cost of exactly the entries removed
+subtracted from `current_cost` (one `fetch_sub` while the locks are still held; since /repo commit
+7e5c084 — before it, `clear` stored 0 and lost the adjustments in-flight operations still owed); then
+all the locks are released. The event buffers are NOT emptied. -/
+def stepClear (c : Cfg) (s : State) (t : Nat) : Option State :=
+  match s.pc t with
+  | .clr acq pend =>
+    if acq.length == c.nShards && pend.isEmpty then
+      some { s with map := fun _ => none, cur := s.cur - residentCost s,
+                    sheld := fun i => if s.sheld i = some t then none else s.sheld i,
+                    pc := upd s.pc t (.done none), hist := s.hist ++ [.clear t, .ret t none] }
+    else none
   | _ => none
 
 def stepMLock (s : State) (t : Nat) : Option State :=
@@ -521,7 +552,7 @@ def stepUnlock (s : State) (t : Nat) : Option State :=
                                 hist := s.hist ++ [.ret t none] }
   | _ => none
 
-def step (c : Cfg) (s : State) (t : Nat) : Label → Option State
+def step0 (c : Cfg) (s : State) (t : Nat) : Label → Option State
   | .call op a => stepCall c s t op a
   | .advance d => some { s with now := s.now + d }
   | .read => stepRead c s t
@@ -539,7 +570,9 @@ def step (c : Cfg) (s : State) (t : Nat) : Label → Option State
   | .oiMap => stepOiMap c s t
   | .oiEv => stepOiEv c s t
   | .oiAdd => stepOiAdd s t
-  | .clear => stepClear s t
+  | .clrAcq i => stepClrAcq c s t i
+  | .clrGet i => stepClrGet s t i
+  | .clear => stepClear c s t
   | .mLock => stepMLock s t
   | .recv => stepRecv s t
   | .admit d => stepAdmit s t d
@@ -554,25 +587,6 @@ def step (c : Cfg) (s : State) (t : Nat) : Label → Option State
   | .capMap sent => stepCapMap c s t sent
   | .capSub => stepCapSub s t
   | .unlock => stepUnlock s t
-
-def run (c : Cfg) (s : State) : List (Nat × Label) → Option State
-  | [] => some s
-  | (t, l) :: rest => (step c s t l).bind (fun s' => run c s' rest)
-
-inductive Reach (c : Cfg) : State → Prop where
-  | init : Reach c init
-  | step {s s' t l} : Reach c s → step c s t l = some s' → Reach c s'
-
-def isRest : PC → Bool
-  | .idle => true
-  | .done _ => true
-  | _ => false
-
-/-- no thread is inside an API call (maintenance passes included) -/
-def Quiescent (c : Cfg) (s : State) : Prop := ∀ t, t < c.nThreads → isRest (s.pc t) = true
-
-instance (c : Cfg) (s : State) : Decidable (Quiescent c s) := by unfold Quiescent; exact inferInstance
-
 
 /-! ### Footprint: the lock acquisitions and clock reads each step performs, in program order
 
@@ -618,7 +632,7 @@ def footprint (c : Cfg) (s : State) (t : Nat) : Label → List Acc
     (match s.pc t with
      | .oi k _ _ => .shard (shardOf c k) true (s.amode t) :: (match s.map k with | none => [.clock] | some _ => [])
      | _ => [])
-  | .clear => (List.range c.nShards).map (fun i => .shard i true (s.amode t))
+  | .clrAcq i => [.shard i true (s.amode t)]
   | .mLock => (match s.pc t with | .mLock sh _ _ => [.maint sh (if s.amode t then .alock else .lock)] | _ => [])
   | .recv =>
     (match s.pc t with
@@ -640,6 +654,35 @@ def footprint (c : Cfg) (s : State) (t : Nat) : Label → List Acc
 def footprintAlt (c : Cfg) (s : State) (t : Nat) : Label → Option (List Acc)
   | .coopSkip => (match s.pc t with | .insMaint k => (if s.amode t then none else some [.maint (shardOf c k) .tryl]) | _ => none)
   | _ => none
+
+/-- a step is disabled while another thread's `clear` holds a shard lock the step acquires (the sync
+caller blocks, the async caller's future stays pending); `clear`'s own acquisitions have their own rule -/
+def blocked (c : Cfg) (s : State) (t : Nat) (l : Label) : Bool :=
+  match l with
+  | .clrAcq _ => false
+  | _ => (footprint c s t l).any (fun a => match a with | .shard i _ _ => (s.sheld i).isSome | _ => false)
+
+def step (c : Cfg) (s : State) (t : Nat) (l : Label) : Option State :=
+  if blocked c s t l then none else step0 c s t l
+
+def run (c : Cfg) (s : State) : List (Nat × Label) → Option State
+  | [] => some s
+  | (t, l) :: rest => (step c s t l).bind (fun s' => run c s' rest)
+
+inductive Reach (c : Cfg) : State → Prop where
+  | init : Reach c init
+  | step {s s' t l} : Reach c s → step c s t l = some s' → Reach c s'
+
+def isRest : PC → Bool
+  | .idle => true
+  | .done _ => true
+  | _ => false
+
+/-- no thread is inside an API call (maintenance passes included) -/
+def Quiescent (c : Cfg) (s : State) : Prop := ∀ t, t < c.nThreads → isRest (s.pc t) = true
+
+instance (c : Cfg) (s : State) : Decidable (Quiescent c s) := by unfold Quiescent; exact inferInstance
+
 
 /-! ### The sequential specification: a per-key register that may forget -/
 
